@@ -304,6 +304,30 @@ Definition Injective (shape strides : list N) : Prop :=
   forall i j, Forall2 N.lt i shape -> Forall2 N.lt j shape -> dot i strides = dot j strides -> i = j.
 Definition valid_b (idx shape : list N) : bool := nd_valid idx shape.
 
+(* ---- exact-arithmetic specifications of the constructors (no mode: the theorems say that
+   the code computes exactly these in both build modes) *)
+Definition overlap_exact (shape strides : list N) : bool :=
+  if has_zero_dim shape then false else may_overlap false (combine strides shape).
+Definition nz_prod (shape : list N) : N := nprod (filter (fun d => negb (is_zero d)) shape).
+Definition try_from_data_spec (shape : list N) (n : N) : outcome :=
+  if nz_prod shape <? two64
+  then (if nprod shape =? n then Accept shape (contig_strides shape) else ErrLenMismatch)
+  else ErrLenMismatch.
+Definition from_data_with_strides_spec (k : kind) (shape strides : list N) (n : N) : outcome :=
+  let '(sh, st) := norm k shape strides in
+  if inv_b sh st n then (if overlap_exact sh st then ErrMayOverlap else Accept sh st) else ErrTooShort.
+Definition from_slice_with_strides_spec (k : kind) (shape strides : list N) (n : N) : outcome :=
+  let '(sh, st) := norm k shape strides in
+  if inv_b sh st n then Accept sh st else ErrTooShort.
+Definition from_storage_and_layout_spec (k : kind) (mutable : bool) (shape strides : list N) (n : N) : outcome :=
+  let '(sh, st) := norm k shape strides in
+  if inv_b sh st n then (if mutable && overlap_exact sh st then PanicAssert else Accept sh st) else PanicAssert.
+Definition expanded_layout_spec (k : kind) (shape strides : list N) (cap : N) (axis : nat) (v : N) : outcome :=
+  match resize_dim k shape strides axis v with
+  | None => PanicOther
+  | Some (sh, st) => if inv_b sh st cap then (if overlap_exact sh st then CapNo else Accept sh st) else CapNo
+  end.
+
 (* ---- correspondence cases *)
 Inductive ctor := CTryFromData | CFromData | CFromDataWithStrides | CFromSliceWithStrides
                 | CFromStorage (mutable : bool).
